@@ -105,3 +105,96 @@ func H_C09_verdict() {
 		vassert(exited && tb.failNow == 1, "C09: a failed Check must stop the enclosing test (FailNow)")
 	}
 }
+
+// H_C09_findBugStep: ONE iteration of the real findBug loop from an ARBITRARY loop state
+// satisfying the invariant (loop cut-point): covers every N and every position in the run.
+//   invariant  0 <= valid <= max(N,0), 0 <= invalid <= max(10N,0)
+//   step       pass => valid+1, skip => invalid+1, exactly one property invocation, the
+//              invariant holds again; a falsified case returns at once with the counters unchanged
+//   exit       findBug returns without error only with valid == N or invalid == 10N
+// Natively (replay) the loop runs from its real initial state: the property first passes
+// `valid` times and skips `invalid` times and then does the step's outcome.
+func H_C09_findBugStep() {
+	checks := nondetInt("checks")
+	assume(bAnd(checks >= -2, checks <= 1<<32)) // stated bound: 10*N must not overflow int
+	outcome := choose("outcome", 3)          // this iteration: 0 pass, 1 skip, 2 fail
+	v0, i0 := nondetInt("valid0"), nondetInt("invalid0")
+	seed0 := nondetU64("seed")
+	inv := func(v, i int) bool {
+		maxV, maxI := 0, 0
+		if checks > 0 {
+			maxV, maxI = checks, checks*invalidChecksMult
+		}
+		return bAnd(bAnd(v >= 0, v <= maxV), bAnd(i >= 0, i <= maxI))
+	}
+	assume(inv(v0, i0))
+	calls, stepCalls := 0, 0
+	var word uint64
+	prop := func(t *T) {
+		calls++
+		if !cutActive() {
+			// native replay: drive the real loop into the state (v0, i0) first
+			if calls <= v0 {
+				return
+			}
+			if calls <= v0+i0 {
+				t.Skip("skip")
+			}
+		}
+		stepCalls++
+		word = t.s.drawBits(64)
+		switch outcome {
+		case 1:
+			t.Skip("skip")
+		case 2:
+			t.Fatalf("fail")
+		}
+	}
+	stepDone := false
+	cutLoop("findBug", func() {
+		assume(bAnd(loopVarInt("valid") == v0, loopVarInt("invalid") == i0))
+		assume(bAnd(loopVarI64("total") >= 0, loopVarI64("total") <= 1000000000)) // far from the deadline
+	}, func() {
+		stepDone = true
+		v1, i1 := loopVarInt("valid"), loopVarInt("invalid")
+		vassert(stepCalls == 1, "C09: an iteration of findBug does not invoke the property exactly once")
+		switch outcome {
+		case 0:
+			vassert(bAnd(v1 == v0+1, i1 == i0), "C09: a passing test case is not counted as exactly one valid case")
+		case 1:
+			vassert(bAnd(v1 == v0, i1 == i0+1), "C09: a skipped test case is not counted as exactly one invalid case")
+		default:
+			vassert(false, "C09: findBug went on after a falsified test case")
+		}
+		vassert(inv(v1, i1), "C09: findBug's counters leave their range (more than N valid or 10*N skipped cases)")
+		reach("iterated")
+	})
+	if !cutActive() && v0+i0 > 200000 {
+		return // too long to drive natively
+	}
+	valid, invalid, early, seed, err := findBug(newVTB("S"), farDeadline(), checks, seed0, prop)
+	if early {
+		return
+	}
+	if err != nil {
+		reach("failed")
+		vassert(!err.isInvalidData(), "C09: findBug returned invalid data as its error")
+		vassert(outcome == 2 && stepCalls == 1, "C09: findBug reports a failure although the test case did not fail")
+		vassert(valid == v0 && invalid == i0, "C09: a falsified test case changed the valid/invalid counters")
+		fresh := newRandomBitStream(seed, false)
+		vassert(fresh.drawBits(64) == word, "C07: the reported seed does not regenerate the failing test case")
+		return
+	}
+	// the loop was left (or never entered) without a failure
+	reach("exited")
+	if cutActive() {
+		vassert(stepCalls == 0, "C09: findBug returned without failure in the middle of an iteration")
+		vassert(valid == v0 && invalid == i0, "C09: findBug's results are not its counters")
+	}
+	if checks > 0 {
+		vassert(valid == checks || invalid == checks*invalidChecksMult, "C09: findBug stopped before N valid test cases or 10*N skipped ones")
+	} else {
+		vassert(valid == 0 && invalid == 0, "C09: findBug ran test cases although N <= 0")
+	}
+	_ = stepDone
+}
